@@ -65,3 +65,12 @@ fn f4_histogram_bucket_out_of_range() {
     assert!(vdaf.shard(b"ctx", &usize::MAX, &[0; 16]).is_err());
     assert!(vdaf.shard(b"ctx", &3usize, &[0; 16]).is_ok());
 }
+#[test]
+fn f9b_prio2_new_extreme_input_len() {
+    // C16: a parameter of extreme size must be an error, not an arithmetic-overflow panic
+    use prio::vdaf::prio2::Prio2;
+    assert!(Prio2::new(usize::MAX).is_err());
+    assert!(Prio2::new(usize::MAX / 2).is_err());
+    assert!(Prio2::new((1 << 19) - 1).is_ok());
+    assert!(Prio2::new(1 << 19).is_err());
+}
